@@ -203,6 +203,14 @@ impl AssemblyWindow {
     pub fn verif_alloc(&self) -> usize {
         self.alloc
     }
+
+    // Bytes actually held in assembly buffers
+    pub fn verif_held(&self) -> usize {
+        self.window.iter().map(|e| match e {
+            WindowEntry::Active(ref entry) => entry.asm_buffer.verif_capacity(),
+            _ => 0,
+        }).sum()
+    }
 }
 
 #[cfg(test)]
